@@ -153,7 +153,10 @@ def execute(req, env: Env):
             g = env.grid(gid)
             f = g.make_operator(op, BCS[bcid], backend=backend, **kw)
             return _digest(np, f(_data(np, g, rank)))
-        if kind == "opinfo":  # user-defined operators passed as OperatorInfo (same name and ranks, other factory)
+        if kind in ("opinfo", "opinfo_gc"):
+            # user-defined operators passed as OperatorInfo (same name and ranks, other factory).  "opinfo" keeps every
+            # factory alive for the whole history; "opinfo_gc" lets it die after use, as a helper function that builds an
+            # operator from a local factory would: the next factory is then allocated at the same address (same id()).
             from pde.tools.typing import OperatorInfo
 
             _, gid, k, bcid, backend = req
@@ -165,11 +168,17 @@ def execute(req, env: Env):
 
                 return op
 
+            if kind == "opinfo":
+                if not hasattr(env, "keep"):
+                    env.keep = []
+                env.keep.append(factory)
             f = g.make_operator(OperatorInfo(factory, 0, 0), BCS[bcid], backend=backend)
             r1 = f(_data(np, g, 0))
             out = np.empty(tuple(g.shape))
             g.make_operator_no_bc(OperatorInfo(factory, 0, 0), backend=backend)(np.pad(_data(np, g, 0), 1, mode="edge"), out)
-            return _digest(np, [r1, out])
+            res = _digest(np, [r1, out])
+            del f, factory
+            return res
         if kind == "field":  # field.apply_operator(op, bc)
             _, gid, op, bcid, rank = req
             return _digest(np, env.field(gid, rank).apply_operator(op, bc=BCS[bcid]))
@@ -366,6 +375,10 @@ def alphabet(family, tier):
             reqs.append(["expr", eid, "deriv"])
             reqs.append(["expr", eid, "numba"])
             reqs.append(["expr", eid + "#2", [1.5 - 0.25 * k for k in range(n)]])
+    elif family == "idreuse":
+        # kept apart from all other requests: a dead factory's id may be reused by ANY later function object
+        for k in (2, 3):
+            reqs.append(["opinfo_gc", "A", k, "v0", "numba"])
     elif family == "interp":
         pts = [[0.7], [2.0], [3.9]]
         for name in ("f", "f2", "p"):
@@ -378,7 +391,7 @@ def alphabet(family, tier):
     return reqs
 
 
-FAMILIES = ["line", "radial", "plane", "pde", "expr", "interp"]
+FAMILIES = ["line", "radial", "plane", "pde", "expr", "interp", "idreuse"]
 
 
 # ----------------------------------------------------------------------------------------------
@@ -490,7 +503,7 @@ def check_history(hist):
             what = "result differs from the same request in a fresh interpreter"
             fam = {"mkop": "operator cache", "field": "operator cache", "nobc": "operator cache", "gridprop": "grid cache",
                    "rate": "pde cache", "rhs": "pde cache", "solve": "pde cache", "expr": "expression cache",
-                   "opinfo": "operator cache"}[req[0]]
+                   "opinfo": "operator cache", "opinfo_gc": "operator cache (id of a dead factory reused)"}[req[0]]
         if got != ref:
             prev = [h for h in hist[:i]]
             viol.append({
